@@ -172,6 +172,10 @@ def run_isolated(modname, prop, tier, seed, idxs, opts, timeout=300):
     results, harness = [], []
     for i in idxs:
         parent, child = ctx.Pipe(duplex=False)
+        import tempfile
+        tfd, tfile = tempfile.mkstemp(prefix='verif-trace-', suffix='.json')
+        os.close(tfd)
+        opts = dict(opts, _trace_file=tfile)
         pr = ctx.Process(target=_isolated_child, args=(child, (modname, prop, tier, seed, [i], opts, timeout)))
         pr.start()
         child.close()
@@ -187,6 +191,10 @@ def run_isolated(modname, prop, tier, seed, idxs, opts, timeout=300):
             pr.join()
         if got is not None:
             results.extend(got)
+            try:
+                os.unlink(tfile)
+            except OSError:
+                pass
             continue
         code = pr.exitcode
         res = new_result(i)
@@ -199,6 +207,14 @@ def run_isolated(modname, prop, tier, seed, idxs, opts, timeout=300):
         else:
             res['harness'].append('run %d killed its process (exit %s)' % (i, code))
         results.append(res)
+    for r in results:
+        pass
+    import glob
+    for f in glob.glob(os.path.join(tempfile.gettempdir(), 'verif-trace-*.json')):
+        try:
+            os.unlink(f)
+        except OSError:
+            pass
     return results, harness
 
 
